@@ -326,8 +326,54 @@ def F_C13_1():
     return list(l) != ["a"]
 
 
+def F_C07_1():
+    "C07: copy-on-write helper on a frozen class with invalidated_by dependants raises"
+    from spec_classes import FrozenInstanceError
+
+    @spec_class(frozen=True)
+    class F:
+        a: int = 1
+        b: int = Attr(default=0, invalidated_by=["a"])
+
+    try:
+        F().with_a(2)
+    except FrozenInstanceError:
+        return True
+    return False
+
+
+def F_C07_2():
+    "C07: reset_<attr>() on a frozen instance raises"
+    from spec_classes import FrozenInstanceError
+
+    @spec_class(frozen=True)
+    class F:
+        a: int = 1
+
+    try:
+        F(a=3).reset_a()
+    except FrozenInstanceError:
+        return True
+    return False
+
+
+def F_C07_3():
+    "C07: update(**attrs) on a frozen instance raises"
+    from spec_classes import FrozenInstanceError
+
+    @spec_class(frozen=True)
+    class F:
+        a: int = 1
+
+    try:
+        F().update(a=2)
+    except FrozenInstanceError:
+        return True
+    return False
+
+
 ALL = [D1, D2, D3, D4, D5, D6, D7, D8, D9, D10, D11, D12, D13, D14, D15,
-       F_C01_1, F_C02_1, F_C04_1, F_C13_1]
+       F_C01_1, F_C02_1, F_C04_1, F_C13_1, F_C07_1, F_C07_2, F_C07_3]
 
 if __name__ == "__main__":
     want = set(sys.argv[1:])
